@@ -76,3 +76,10 @@ Definition present {A} (l : list (option A)) : list A :=
   flat_map (fun o => match o with Some x => [x] | None => [] end) l.
 Definition model_obs (cfg : config) (q : request) : list bobs :=
   map (fun k => (present (sent_seq cfg q k), present (sent_seq (solo cfg k) q 0))) (seq 0 (List.length cfg)).
+
+(* soundness of an object-level access summary w.r.t. a line-level model: every event on a
+   memory location is covered by a summary access to the object the location belongs to, a
+   write by a write *)
+Definition cov (coarse : list acc) (e : fev) : Prop :=
+  exists a, In a coarse /\ Heap.aobj a = obj_of (floc e) /\ (is_fw e = true -> Heap.is_wr a = true).
+Definition covers (fine : list fev) (coarse : list acc) : Prop := Forall (cov coarse) fine.
